@@ -259,7 +259,7 @@ n_stnx(t) == /\ pc[t] = "n_stnx"
 \* nothing on the free lists: fresh memory, ref_count = RefCountInc
 n_fresh(t) == /\ pc[t] = "n_fresh"
               /\ \E n \in Nodes :
-                   /\ nstate[n] = "free"
+                   /\ nstate[n] = "free" /\ \A m \in Nodes : nstate[m] = "free" => n <= m         \* which block malloc returns does not matter
                    /\ loc' = [loc EXCEPT ![t].fresh = n]
                    /\ Store(t, REFC(n), INC, Ord["n_init"]) /\ Acc(t, "st", "n_init", INC, 1)
                    /\ nstate' = [nstate EXCEPT ![n] = "des"]         \* raw memory, no object yet
